@@ -34,7 +34,7 @@ sys.path.insert(0, os.path.dirname(os.path.abspath(__file__)))
 import rustscan  # noqa: E402
 
 VERIF = os.path.dirname(os.path.dirname(os.path.abspath(__file__)))
-EXCLUDE_DIRS = {'target', '.git', 'site', 'bench_content', 'benches', 'tests', 'scripts', '.github', '_seed'}
+EXCLUDE_DIRS = {'target', '.git', 'site', 'bench_content', 'benches', 'scripts', '.github', '_seed'}
 
 
 class WeaveError(Exception):
@@ -54,6 +54,7 @@ class Harness:
     desc: str = ''
     budget: int = 0
     text: str = ''              # harness source text (for evidence samples)
+    mod: str = 'verif_kani'     # name of the cfg(kani) module the harness lives in
 
 
 @dataclass
@@ -95,6 +96,7 @@ def parse_unit(path: str) -> Unit:
     body_lines: List[str] = []
     pending_h: Optional[Dict[str, str]] = None
     cur_attr: Optional[Attr] = None
+    cur_mod = 'verif_kani'
     i = 0
     while i < len(lines):
         ln = lines[i]
@@ -124,6 +126,9 @@ def parse_unit(path: str) -> Unit:
         else:
             cur_attr = None if not s.startswith('//@') else cur_attr
             body_lines.append(ln)
+            mmod = re.match(r'^mod\s+(\w+)\s*\{', ln)
+            if mmod:
+                cur_mod = mmod.group(1)
             if pending_h is not None:
                 m = re.match(r'\s*(?:pub\s+)?fn\s+([A-Za-z0-9_]+)\s*\(', ln)
                 if m:
@@ -142,6 +147,7 @@ def parse_unit(path: str) -> Unit:
                             break
                         j += 1
                     h.text = '\n'.join(buf)
+                    h.mod = cur_mod
                     harnesses.append(h)
                     pending_h = None
         i += 1
